@@ -18,7 +18,7 @@ Section F.
   Notation cstate := (cstate Param Series LossV).
   Notation one_batch := (one_batch Param Series LossV model lossf loss_leb rounds0 propose draws agent_actions plan).
   Notation batches := (batches Param Series LossV model lossf loss_leb rounds0 propose draws agent_actions plan).
-  Notation calibrate := (calibrate Param Series LossV model lossf loss_leb rounds0 propose draws agent_actions plan).
+  Notation calibrate_pos := (calibrate_pos Param Series LossV model lossf loss_leb rounds0 propose draws agent_actions plan).
 
   (* same calibrator with other verbosity / saving flags *)
   Definition reflag (v sv : bool) (c : core) : core :=
@@ -80,11 +80,12 @@ Section F.
 
   (* C01 / C14: for a round-robin line-up the history, the counters, the scheduler and generator state and the returned
      pairs of calibrate(n) do not depend on verbosity nor on whether a saving folder is set *)
-  Theorem calibrate_noninterference v sv n c d d' s1 e r : is_rr c ->
-    calibrate n (mkSt _ _ _ c d) = (s1, e, r) ->
-    exists d1', calibrate n (mkSt _ _ _ (reflag v sv c) d') = (mkSt _ _ _ (reflag v sv (live _ _ _ s1)) d1', e, r).
+  Theorem calibrate_pos_noninterference v sv n c d d' s1 e r : is_rr c ->
+    calibrate_pos n (mkSt _ _ _ c d) = (s1, e, r) ->
+    is_rr (live _ _ _ s1) /\
+    exists d1', calibrate_pos n (mkSt _ _ _ (reflag v sv c) d') = (mkSt _ _ _ (reflag v sv (live _ _ _ s1)) d1', e, r).
   Proof.
-    intros Hrr H. unfold Calibrator.calibrate in *. cbn [live disk] in *.
+    intros Hrr H. unfold Calibrator.calibrate_pos in *. cbn [live disk] in *.
     change (batch_idx _ _ _ (reflag v sv c)) with (batch_idx _ _ _ c).
     set (c1 := if Nat.eqb (batch_idx _ _ _ c) 0 then set_samplers_seeds _ _ _ draws c else c) in *.
     assert (Hc1 : (if Nat.eqb (batch_idx _ _ _ c) 0 then set_samplers_seeds _ _ _ draws (reflag v sv c) else reflag v sv c) = reflag v sv c1)
@@ -106,6 +107,24 @@ Section F.
       destruct (one_batch (mkSt _ _ _ c0 d0)) as [s3 o3] eqn:E. pose proof (one_batch_rr_keeps_rr _ _ _ _ Hrr E).
       destruct o3; try (injection Hb as <- _; assumption). destruct s3 as [c3 d3]. eapply IH; eauto. }
     destruct Hrr3 as (l3 & b3 & Hs3). rewrite Hs3 in *. cbn [end_session] in *.
-    destruct o2; injection H as <- <- <-; eexists; reflexivity.
+    destruct o2; injection H as <- <- <-; (split; [eexists; eexists; reflexivity | eexists; reflexivity]).
+  Qed.
+
+  Notation calibrate := (calibrate Param Series LossV model lossf loss_leb rounds0 propose draws agent_actions plan).
+
+  (* C01 / C14: for a round-robin line-up the history, the counters, the scheduler and generator state, the outcome and
+     the returned pairs of calibrate(n) do not depend on verbosity, on whether a saving folder is set, nor on what it held *)
+  Theorem calibrate_noninterference v sv n c d d' s1 e r : is_rr c ->
+    calibrate n (mkSt _ _ _ c d) = (s1, e, r) ->
+    exists d1', calibrate n (mkSt _ _ _ (reflag v sv c) d') = (mkSt _ _ _ (reflag v sv (live _ _ _ s1)) d1', e, r).
+  Proof.
+    intros Hrr H. rewrite (calibrate_unfold Param Series LossV) in *. destruct n as [|n].
+    2:{ eapply calibrate_pos_noninterference; eauto. }
+    destruct (calibrate_pos 0 (mkSt _ _ _ c d)) as [[s0 e0] r0] eqn:E.
+    destruct (calibrate_pos_noninterference v sv 0 c d d' _ _ _ Hrr E) as [(l & b & Hs) [d0' E']]. rewrite E'.
+    unfold zero_ckpt in *. destruct e0 as [x|].
+    - injection H as <- <- <-. eexists; reflexivity.
+    - cbn [live cfg reflag c_saving]. unfold save in *. cbn [sch reflag]. rewrite Hs in *.
+      destruct (c_saving (cfg _ _ _ (live _ _ _ s0))); injection H as <- <- <-; destruct sv; eexists; reflexivity.
   Qed.
 End F.
